@@ -1658,19 +1658,10 @@ Record LInv (s : lconn) : Prop := {
 
 Lemma lstep_inv s a s' : LInv s -> lstep true s a = Some s' -> LInv s'.
 Proof.
-  intros [L G] H. destruct a; cbn in H.
-  - destruct (closesig s) eqn:E; [inv_some; constructor; auto|].
-    destruct (inq s <? lcap s); inv_some. constructor; cbn; auto.
-  - rewrite L in H. discriminate.
-  - destruct (fwd s); try discriminate. destruct (inq s); inv_some. constructor; cbn; auto.
-  - destruct (fwd s); try discriminate. destruct (outq s <? lcap s); inv_some. constructor; cbn; auto.
-  - destruct (closesig s) eqn:E; [|discriminate]. destruct (fwd s); inv_some; constructor; cbn; auto.
-  - destruct (reading s); [|discriminate]. destruct (outq s); inv_some. constructor; cbn; auto.
-  - destruct (reading s); inv_some. constructor; cbn; auto.
-  - destruct (closer s) eqn:E; try discriminate. destruct (lock_free s); inv_some. constructor; cbn; auto.
-  - destruct (closer s) eqn:E; try discriminate. destruct (fwd s); inv_some. constructor; cbn; auto.
-    intros _. apply G. congruence.
-  - destruct (lock_free s); inv_some. constructor; auto.
+  intros [L G] H. destruct a; cbv beta iota zeta delta [lstep] in H.
+  all: repeat (break_if H; try discriminate); inv_some.
+  all: constructor; cbn in *; auto; try congruence.
+  all: try (intros; apply G; congruence).
 Qed.
 
 Lemma lrun_inv acts : forall s s', LInv s -> lrun true s acts = Some s' -> LInv s'.
@@ -1691,7 +1682,7 @@ Theorem local_close_completes cap acts s :
               closer s' = CDone /\ lock_free s' = true).
 Proof.
   intros R. assert (I : LInv s).
-  { eapply lrun_inv; [|exact R]. constructor; cbn; auto. intros H; congruence. }
+  { eapply lrun_inv; [|exact R]. constructor; cbn; auto; intros H; congruence. }
   destruct I as [L G]. split; auto. intros Hc.
   assert (Hs : closesig s = true) by (apply G; congruence).
   destruct (fwd s) eqn:Ef.
